@@ -66,9 +66,9 @@ struct SaveWorld : World {
         int n = 1 + (int)pr.below(prop == "C13" ? 18 : (g_tier ? 60 : 24)); bool faults = prop == "C12" && pr.chance(0.5);
         for (int i = 0; i < n; i++) {
             Op o;
-            if (pr.chance(0.1)) { // fill an array with a constant run or an arithmetic sequence (the printer compresses those into ranges)
+            if (pr.chance(0.15)) { // fill an array with a constant run or an arithmetic sequence (the printer compresses those into ranges)
                 std::vector<int> arrs; for (size_t q = 0; q < P.size(); q++) if (P[q].elems >= 3 && (P[q].type == 'i' || P[q].type == 'f')) arrs.push_back((int)q);
-                if (!arrs.empty()) { o.kind = OP_FILL; o.a[0] = arrs[pr.below(arrs.size())]; o.a[1] = pr.below(4); o.a[2] = (int64_t)pr.below(9) - 4; o.a[3] = (int64_t)pr.below(5) - 2; p.push_back(o); continue; } }
+                if (!arrs.empty()) { o.kind = OP_FILL; o.a[0] = arrs[pr.below(arrs.size())]; o.a[1] = pr.below(12); o.a[2] = (int64_t)pr.below(9) - 4; o.a[3] = pr.chance(0.4) ? 0 : pr.chance(0.5) ? 1 : (int64_t)pr.below(5) - 2; p.push_back(o); if (pr.chance(0.5)) { Op o2 = o; o2.a[1] = pr.below(12); o2.a[2] = (int64_t)pr.below(9) - 4; o2.a[3] = pr.chance(0.5) ? 1 : (int64_t)pr.below(5) - 2; p.push_back(o2); } continue; } }   // often two fills of the same array: a run followed by a sequence
             if (pr.chance(0.8)) { o.kind = OP_SET; int pi = pr.chance(0.75) ? (int)((focus0 + pr.below(focusn)) % P.size()) : (int)pr.below(P.size()); /* most sets hit a block of related parameters */ const Param &pp = P[pi]; o.a[0] = pi; o.a[1] = pr.below(pp.elems);
                 switch (pp.type) {
                 case 'i': case 'c': { double s = pr.unit(); double lo = std::max(pp.lo, -2147483648.0), hi = std::min(pp.hi, 2147483647.0);
@@ -152,7 +152,9 @@ struct SaveWorld : World {
                 for (size_t i = h; i < text.size(); i++) if (text[i] == '/' && (i == 0 || text[i - 1] == '\n')) for (size_t j = i; j < text.size() && text[j] != ' ' && text[j] != '\n'; j++) pos.push_back(j);
                 if (!pos.empty()) { size_t at = pos[(size_t)(op.a[1] % (int64_t)pos.size())]; file[at] = (char)(file[at] ^ (1 << (op.a[2] & 7))); if (!file[at]) file[at] = ' '; } relaxed = true; break; }
             case FL_HEADER: stat_add(F_HEADER); file = "% NOT OSC v9.9.9 savefile\n" + text.substr(text.find('\n') + 1); expect_reject = true; break;
-            case FL_APP: stat_add(F_APPNAME); { size_t a = text.find('\n') + 1, e = text.find('\n', a); file = text.substr(0, a) + "% otherapp v1.2.3" + (e == std::string::npos ? "" : text.substr(e)); } expect_reject = true; break;
+            case FL_APP: stat_add(F_APPNAME); { size_t a = text.find('\n') + 1, e = text.find('\n', a); std::string own = d.name; static const char *suffix[] = {"", "-pro", "2", "x"};
+                std::string other = (op.a[1] % 5 == 0) ? std::string("otherapp") : (op.a[1] % 5 == 4) ? own.substr(0, own.size() - 1) : own + suffix[op.a[1] % 5];   // also names that start with, or are a prefix of, the loader's own
+                file = text.substr(0, a) + "% " + other + " v1.2.3" + (e == std::string::npos ? "" : text.substr(e)); } expect_reject = true; break;
             case FL_GARBAGE: stat_add(F_GARBAGE); file = header_of(text); if (file.back() != '\n') file += "\n"; { size_t at = lines.empty() ? 0 : (size_t)(op.a[1] % (int64_t)(lines.size() + 1)); for (size_t i = 0; i < lines.size(); i++) { if (i == at) file += "/i_pos $$$ not a value\n"; file += lines[i] + "\n"; } if (at >= lines.size()) file += "/i_pos $$$ not a value\n"; } expect_reject = true; break;
             case FL_UNKNOWN: stat_add(F_UNKNOWN_PORT); file = text + (lines.empty() && text.back() == '\n' ? "" : "\n") + "/no_such_port 1"; expect_reject = true; break;
             }
